@@ -2,6 +2,7 @@ package rules
 
 import (
 	"go/constant"
+	"go/token"
 	"go/types"
 	"sort"
 	"strings"
@@ -319,3 +320,182 @@ func pruneStopArms(fn *ssa.Function) func(*ssa.BasicBlock, int) bool {
 }
 
 func ptrTo(t *ssa.Type) types.Type { return types.NewPointer(t.Type()) }
+
+// globalIntTable returns the constant contents of an unexported package-level
+// []int / [N]int variable that is initialised once from a literal and never
+// written afterwards (only indexed, ranged over or measured). ok=false when
+// any use in its package could change an element.
+func globalIntTable(p *core.Program, g *ssa.Global) (vals []int64, ok bool) {
+	if g == nil || g.Pkg == nil || g.Object() == nil || g.Object().Exported() {
+		return nil, false
+	}
+	var fns []*ssa.Function
+	hasInit := false
+	for _, fn := range p.ModFuncs {
+		if fn.Pkg == g.Pkg || (fn.Parent() != nil && fn.Parent().Pkg == g.Pkg) {
+			fns = append(fns, fn)
+			if fn == g.Pkg.Func("init") {
+				hasInit = true
+			}
+		}
+	}
+	if !hasInit && g.Pkg.Func("init") != nil {
+		fns = append(fns, g.Pkg.Func("init"))
+	}
+	var initStore *ssa.Store
+	readOnly := true
+	var useOK func(v ssa.Value, depth int) bool
+	useOK = func(v ssa.Value, depth int) bool {
+		if depth > 6 {
+			return false
+		}
+		for _, u := range ir.Referrers(v) {
+			switch x := u.(type) {
+			case *ssa.DebugRef:
+			case *ssa.IndexAddr:
+				for _, uu := range ir.Referrers(x) {
+					if ld, isLd := uu.(*ssa.UnOp); !isLd || ld.Op != token.MUL {
+						if _, isDbg := uu.(*ssa.DebugRef); !isDbg {
+							return false
+						}
+					}
+				}
+			case *ssa.Index, *ssa.Range:
+			case *ssa.Call:
+				if b, isB := x.Call.Value.(*ssa.Builtin); isB && (b.Name() == "len" || b.Name() == "cap") {
+					continue
+				}
+				// read-only membership helpers (slices.Contains / slices.Index and the canonicaliser's models of them)
+				f := ir.CalleeOf(x.Common())
+				if f == nil || !(strings.HasPrefix(f.Name(), "zzcanonContains") || strings.HasPrefix(f.Name(), "zzcanonIndex") ||
+					strings.HasPrefix(ir.FullName(f), "slices.Contains[") || strings.HasPrefix(ir.FullName(f), "slices.Index[")) {
+					return false
+				}
+			case *ssa.ChangeType, *ssa.Phi:
+				if !useOK(x.(ssa.Value), depth+1) {
+					return false
+				}
+			case *ssa.Store:
+				// spilled into a local: follow the local's loads
+				al, isAl := x.Addr.(*ssa.Alloc)
+				if !isAl || x.Val != v {
+					return false
+				}
+				for _, uu := range ir.Referrers(al) {
+					switch y := uu.(type) {
+					case *ssa.Store:
+						if y.Addr != al {
+							return false
+						}
+					case *ssa.UnOp:
+						if !useOK(y, depth+1) {
+							return false
+						}
+					case *ssa.DebugRef:
+					default:
+						return false
+					}
+				}
+			default:
+				return false
+			}
+		}
+		return true
+	}
+	for _, fn := range fns {
+		allInstrs(fn, func(in ssa.Instruction) {
+			switch x := in.(type) {
+			case *ssa.Store:
+				if x.Addr == ssa.Value(g) {
+					if fn.Name() == "init" && fn.Synthetic != "" && initStore == nil {
+						initStore = x
+					} else {
+						readOnly = false
+					}
+				} else if x.Val == ssa.Value(g) {
+					readOnly = false // address escapes
+				}
+			case *ssa.UnOp:
+				if x.X == ssa.Value(g) && x.Op == token.MUL {
+					if !useOK(x, 0) {
+						readOnly = false
+					}
+				}
+			default:
+				for _, op := range in.Operands(nil) {
+					if *op == ssa.Value(g) {
+						if _, isIA := in.(*ssa.IndexAddr); isIA {
+							for _, uu := range ir.Referrers(in.(ssa.Value)) {
+								if ld, isLd := uu.(*ssa.UnOp); !isLd || ld.Op != token.MUL {
+									if _, isDbg := uu.(*ssa.DebugRef); !isDbg {
+										readOnly = false
+									}
+								}
+							}
+						} else {
+							readOnly = false
+						}
+					}
+				}
+			}
+		})
+	}
+	if !readOnly {
+		return nil, false
+	}
+	// contents: either g = slice(new [N]int) with constant element stores in init, or
+	// element stores straight into the array global
+	var backing ssa.Value
+	if initStore != nil {
+		sl, isSl := initStore.Val.(*ssa.Slice)
+		if !isSl || sl.Low != nil || sl.High != nil {
+			return nil, false
+		}
+		backing = sl.X
+	} else {
+		return nil, false
+	}
+	arr, isArr := backing.Type().Underlying().(*types.Pointer)
+	if !isArr {
+		return nil, false
+	}
+	at, isAT := arr.Elem().Underlying().(*types.Array)
+	if !isAT {
+		return nil, false
+	}
+	vals = make([]int64, at.Len())
+	set := make([]bool, at.Len())
+	for _, u := range ir.Referrers(backing) {
+		ia, isIA := u.(*ssa.IndexAddr)
+		if !isIA {
+			if u == ssa.Instruction(initStore.Val.(*ssa.Slice)) {
+				continue
+			}
+			if _, isDbg := u.(*ssa.DebugRef); isDbg {
+				continue
+			}
+			return nil, false
+		}
+		idx, okI := ir.ConstInt(ia.Index)
+		if !okI || idx < 0 || idx >= at.Len() {
+			return nil, false
+		}
+		for _, uu := range ir.Referrers(ia) {
+			st, isSt := uu.(*ssa.Store)
+			if !isSt || set[idx] {
+				return nil, false
+			}
+			c, okC := ir.ConstInt(st.Val)
+			if !okC {
+				return nil, false
+			}
+			vals[idx], set[idx] = c, true
+		}
+	}
+	for _, s := range set {
+		if !s {
+			return nil, false
+		}
+	}
+	return vals, true
+}
